@@ -136,8 +136,13 @@ def check_case(ctx, case, steps, msteps):
         if rec["db"] != prev:
             nchange += 1
         prev = rec["db"]
-        if cmd["op"] in ("rmcache", "clearcache"):
-            ctx.hist("rm cache" if cmd["op"] == "rmcache" else "eups admin clearCache")
+        if cmd["op"] in ("rmcache", "clearcache", "adminbuild"):
+            ctx.hist({"rmcache": "rm cache", "clearcache": "eups admin clearCache", "adminbuild": "eups admin buildCache -A"}[cmd["op"]])
+            if cmd["op"] == "adminbuild" and rec["out"] == "ok" and \
+                    not all("%s/%d/%s" % (lib_db.SYS, si, f) in rec.get("sys_caches", []) for si in range(lib_db.NSTACKS)
+                            for f in fallbacks(cmd.get("flavor", "Linux"))):
+                ctx.fail("admin_build_builds", sub, dict(impl_obs, sys_caches=rec.get("sys_caches")), model_obs,
+                         note="cache files inside ups_db/ after eups admin buildCache -A: %s" % rec.get("sys_caches"))
             if rec.get("caches_left"):
                 ctx.fail("clear_cache_clears", sub, dict(impl_obs, caches_left=rec["caches_left"]), model_obs,
                          note="cache files of the user left after eups admin clearCache: %s" % rec["caches_left"])
